@@ -163,6 +163,13 @@ extern long hx_force_len;
 /* run `sp` alone on the oracle manager for variant v; fills out (caller frees). returns status */
 int hx_run_alone(const hx_variant *v, const hx_spec *sp, hx_job *out);
 
+/* ---------- reference interpretation (ref.c) ---------- */
+/* returns bit0: dst reference available, bit1: tag reference available */
+int hx_ref_job(const hx_job *j, uint8_t *rdst, uint8_t *rtag);
+void hx_ref_aes_keyexp(const uint8_t *key, int kl, uint8_t *enc, uint8_t *dec);
+void hx_ref_cmac_subkeys(const uint8_t *key, int kl, uint8_t k1[16], uint8_t k2[16]);
+void hx_ref_xcbc_keys(const uint8_t *key, uint8_t k1[16], uint8_t k2[16], uint8_t k3[16]);
+
 /* ---------- trace writer ---------- */
 extern FILE *hx_trace;
 void tr_begin(const char *ev);
